@@ -206,6 +206,29 @@ reg('C18', 'exploration',
     TB + 'The formula table in harness/c18.cpp restates the textbook definitions named in the property.',
     'exhaustive table x magnitude grid against __float128 textbook reference', 'DESIGN.md section 7 C18')
 
+reg('C19', 'model_checking',
+    'Schedule enumeration on the real toolchains, generalised by a Spin model with validated traces. For {g++, clang++} x {-O0, -O2} x each '
+    'of the 39 enumeration types, programs are generated in which four kinds of namespace-scope objects defined after the includes '
+    '(ordinary, inline, variable template, class-template static member) are initialised from an observation function that exercises every '
+    'table-backed facility for every enumerator (abbreviations, streaming, parsing, consistent units, related systems, run-time conversion '
+    'dispatch in 3 numeric types through scalar/container/constructor/accessor/printing forms, compile-time paths, comparison); built as one '
+    'translation unit, as two translation units in both link orders and (representative types in quick, all in thorough) as three translation '
+    'units with another user object behind a different header, in 3 / all 6 link orders; each program must link, exit 0 and observe before '
+    'main() exactly what main() observes. The Promela model of [basic.start.static]/[basic.start.dynamic] (table classes read off the object '
+    'files via guard variables) is checked over all initialisation orders the standard permits, and every real execution is replayed as a '
+    'model trace (traces_validated_against_impl).',
+    TB + 'clang++ 14 and g++ 12 as installed; the model is secondary - the verdict comes from executing the real programs.',
+    'exhaustive build-and-run enumeration of compilers x optimisation levels x TU arrangements x link orders + Spin model with trace validation', 'DESIGN.md section 7 C19')
+reg('C20', 'exploration',
+    'Part 1: the harnesses of the other properties (every table lookup and conversion for every enumerator of the 39 enumeration types, '
+    'container conversions, every entry point and mutator history of every quantity type, every tensor accessor/mutator one by one, '
+    'direction/angle kernels, models) rebuilt under AddressSanitizer + UndefinedBehaviorSanitizer + libstdc++ debug mode and executed at '
+    'their quick alphabets: any report, assertion or escaping exception is a violation. Part 2: ParseNumber<T> on ALL byte strings up to '
+    'length 5 (quick) / 6 (thorough) over a 20-byte alphabet x 3 numeric types, differential against strtof/strtod/strtold, and '
+    'ParseEnumeration on the C08 negative space (incl. embedded NUL, non-ASCII) for all 39 types; thorough adds a valgrind memcheck pass.',
+    TB + 'Sanitizers observe only executed paths: coverage is that of the re-run harnesses. glibc strto* is the oracle for number parsing.',
+    'exhaustive bounded string enumeration + sanitizer-instrumented re-execution of the exhaustive harnesses', 'DESIGN.md section 7 C20')
+
 PENDING = 'check not built yet in this session (planned, see DESIGN.md section 7); not a statement that model checking cannot apply'
 
 
